@@ -69,7 +69,7 @@ Proof. induction n; cbn [spaces repeat app skip]; [reflexivity|]. cbn. exact IHn
 
 Lemma in_arg_raw fl c l acc uq :
   (c =? c_bs) = false -> uq && (c =? c_quote) = false ->
-  negb uq && ((c =? c_sp) || (c =? c_hash) || (stop_on_equals fl && (c =? c_eq))) = false ->
+  negb uq && ((c =? c_sp) || ((c =? c_hash) && negb (control_as_char fl)) || (stop_on_equals fl && (c =? c_eq))) = false ->
   in_arg fl (c :: l) acc uq false false = in_arg fl l (c :: acc) uq false false.
 Proof. intros H1 H2 H3. cbn [in_arg]. now rewrite H1, H2, H3. Qed.
 
@@ -133,13 +133,13 @@ Proof.
   apply in_arg_raw; [assumption|reflexivity|]. cbn [fl_arg stop_on_equals andb negb]. now rewrite H2, H3.
 Qed.
 
-Lemma in_arg_sep fl t tl acc : sep_start (t :: tl) = true ->
+Lemma in_arg_sep fl t tl acc : control_as_char fl = false -> sep_start (t :: tl) = true ->
   in_arg fl (t :: tl) acc false false false = POk (after (t :: tl), finish acc false).
 Proof.
-  cbn [sep_start after]. intros Ht. cbn [in_arg].
+  cbn [sep_start after]. intros Hk Ht. cbn [in_arg].
   destruct (t =? c_bs) eqn:E1.
   { apply N.eqb_eq in E1. subst. discriminate. }
-  cbn [andb negb].
+  rewrite Hk. cbn [andb negb]. rewrite andb_true_r.
   replace ((t =? c_sp) || (t =? c_hash) || stop_on_equals fl && (t =? c_eq)) with true
     by (symmetry; rewrite Ht; reflexivity).
   reflexivity.
@@ -191,13 +191,13 @@ Definition sep_start_fl (fl : flags) (tl : str) : bool :=
 Lemma sep_start_weaken fl tl : sep_start tl = true -> sep_start_fl fl tl = true.
 Proof. destruct tl as [|c tl]; [reflexivity|]. cbn. intros ->. reflexivity. Qed.
 
-Lemma in_arg_sep_fl fl t tl acc : sep_start_fl fl (t :: tl) = true ->
+Lemma in_arg_sep_fl fl t tl acc : control_as_char fl = false -> sep_start_fl fl (t :: tl) = true ->
   in_arg fl (t :: tl) acc false false false = POk (after (t :: tl), finish acc false).
 Proof.
-  cbn [sep_start_fl after]. intros Ht. cbn [in_arg].
+  cbn [sep_start_fl after]. intros Hk Ht. cbn [in_arg].
   destruct (t =? c_bs) eqn:E1.
   { apply N.eqb_eq in E1. subst. cbn in Ht. rewrite andb_false_r in Ht. discriminate. }
-  cbn [andb negb]. rewrite Ht. reflexivity.
+  rewrite Hk. cbn [andb negb]. rewrite andb_true_r, Ht. reflexivity.
 Qed.
 
 Lemma name_char_facts c : name_char c = true ->
@@ -210,10 +210,10 @@ Qed.
 
 Lemma in_arg_name fl s : forall tl acc,
   forallb name_char s = true -> (stop_on_equals fl = true -> no_eq s = true) ->
-  sep_start_fl fl tl = true ->
+  sep_start_fl fl tl = true -> control_as_char fl = false ->
   in_arg fl (s ++ tl) acc false false false = POk (after tl, finish (rev s ++ acc) false).
 Proof.
-  induction s as [|c s IH]; intros tl acc Hn He Ht.
+  induction s as [|c s IH]; intros tl acc Hn He Ht Hk.
   - cbn [app rev]. destruct tl as [|t tl]; [reflexivity|]. now apply in_arg_sep_fl.
   - cbn [forallb] in Hn. apply andb_true_iff in Hn as [Hc Hs].
     destruct (name_char_facts c Hc) as (H1 & H2 & H3 & _).
@@ -221,7 +221,7 @@ Proof.
     rewrite in_arg_raw; [apply IH; try assumption| assumption | reflexivity |].
     + intros Hso. specialize (He Hso). unfold no_eq in *. cbn [forallb] in He.
       now apply andb_true_iff in He as [_ He].
-    + cbn [negb andb]. rewrite H2, H3. cbn [orb].
+    + cbn [negb andb]. rewrite H2, H3. cbn [orb andb].
       destruct (stop_on_equals fl) eqn:Hso; [|reflexivity].
       specialize (He eq_refl). unfold no_eq in He. cbn [forallb] in He.
       apply andb_true_iff in He as [He _]. apply negb_true_iff in He. now rewrite He.
@@ -231,14 +231,15 @@ Lemma skip_name_first fl c l : name_char c = true -> (c =? c_quote) = false ->
   skip fl (c :: l) = in_arg fl l [c] false false false.
 Proof.
   intros Hc Hq. destruct (name_char_facts c Hc) as (H1 & H2 & H3 & _).
-  cbn [skip]. now rewrite H3, H2, Hq, H1.
+  cbn [skip]. rewrite H3, H2, Hq, H1. reflexivity.
 Qed.
 
 Lemma pnv_name fl n s tl :
   name_ok s = true -> (stop_on_equals fl = true -> no_eq s = true) -> sep_start_fl fl tl = true ->
+  control_as_char fl = false ->
   parse_next_value fl (spaces n ++ s ++ tl) = POk (after tl, Some s).
 Proof.
-  intros Hn He Ht. unfold parse_next_value. rewrite skip_spaces.
+  intros Hn He Ht Hk. unfold parse_next_value. rewrite skip_spaces.
   destruct s as [|c s]; [discriminate|]. cbn [name_ok] in Hn.
   apply andb_true_iff in Hn as [Hq Hn]. apply negb_true_iff in Hq.
   pose proof Hn as Hn'. cbn [forallb] in Hn. apply andb_true_iff in Hn as [Hc Hs].
@@ -253,9 +254,10 @@ Qed.
 (* nothing but spaces and an optional comment: no value, and the scan is at the end of the line *)
 Definition is_tail (tl : str) : Prop := tl = [] \/ exists k x, tl = spaces k ++ c_hash :: x.
 
-Lemma pnv_tail fl tl : is_tail tl -> parse_next_value fl tl = POk ([], None).
+Lemma pnv_tail fl tl : is_tail tl -> control_as_char fl = false -> parse_next_value fl tl = POk ([], None).
 Proof.
-  intros [->|(k & x & ->)]; [reflexivity|]. unfold parse_next_value. rewrite skip_spaces. reflexivity.
+  intros [->|(k & x & ->)] Hk; [reflexivity|]. unfold parse_next_value. rewrite skip_spaces.
+  cbn [skip]. rewrite Hk. reflexivity.
 Qed.
 
 Lemma is_tail_sep tl : is_tail tl -> sep_start tl = true.
@@ -380,7 +382,7 @@ Lemma find_label_some n Z : name_ok n = true -> sep_start Z = true ->
 Proof.
   intros Hn HZ. cbn [find_label]. change (c_colon =? c_colon) with true. cbv iota.
   assert (H : parse_next_value fl_name (n ++ Z) = POk (after Z, Some n)).
-  { apply (pnv_name fl_name 0 n Z Hn); [discriminate|now apply sep_start_weaken]. }
+  { apply (pnv_name fl_name 0 n Z Hn); [discriminate|now apply sep_start_weaken|reflexivity]. }
   rewrite H. destruct n; [discriminate|reflexivity].
 Qed.
 
@@ -406,9 +408,9 @@ Lemma find_oc_both g o a b c X :
   = POk (after X, Some o, Some c).
 Proof.
   intros Ho Heq Hc HX. unfold find_output_and_command.
-  rewrite (pnv_name fl_out g o _ Ho); [|intros _; assumption|now apply sep_eq_left].
+  rewrite (pnv_name fl_out g o _ Ho); [|intros _; assumption|now apply sep_eq_left|reflexivity].
   rewrite after_eq_left, after_equals_spaces.
-  rewrite (pnv_name fl_name b c X Hc); [reflexivity|discriminate|now apply sep_start_weaken].
+  rewrite (pnv_name fl_name b c X Hc); [reflexivity|discriminate|now apply sep_start_weaken|reflexivity].
 Qed.
 
 Lemma find_oc_cmd g c X :
@@ -416,7 +418,7 @@ Lemma find_oc_cmd g c X :
   find_output_and_command (spaces g ++ c ++ X) = POk (after X, None, Some c).
 Proof.
   intros Hc Heq HX Hae. unfold find_output_and_command.
-  rewrite (pnv_name fl_out g c X Hc); [|intros _; assumption|now apply sep_start_weaken].
+  rewrite (pnv_name fl_out g c X Hc); [|intros _; assumption|now apply sep_start_weaken|reflexivity].
   now rewrite Hae.
 Qed.
 
@@ -425,7 +427,7 @@ Lemma find_oc_out g o a tl :
   find_output_and_command (spaces g ++ o ++ spaces a ++ c_eq :: tl) = POk (tl, Some o, None).
 Proof.
   intros Ho Heq Ht. unfold find_output_and_command.
-  rewrite (pnv_name fl_out g o _ Ho); [|intros _; assumption|now apply sep_eq_left].
+  rewrite (pnv_name fl_out g o _ Ho); [|intros _; assumption|now apply sep_eq_left|reflexivity].
   rewrite after_eq_left, after_equals_spaces. now rewrite pnv_tail.
 Qed.
 
